@@ -50,7 +50,16 @@ Lemma payload_model_matches_traces :
 Proof. vm_compute. repeat split. Qed.
 
 Lemma payload_samples_present :
-  length gen_meta_w_payload_samples = 12%nat /\ length gen_sitk_w_payload_samples = 6%nat /\
+  length gen_meta_w_payload_samples = 36%nat /\ length gen_sitk_w_payload_samples = 18%nat /\
   length gen_sitk_r_payload_samples = 6%nat /\ (1 <= count_some gen_meta_r_payload_samples)%nat /\
   (1 <= count_some gen_nifti_r_payload_samples)%nat.
 Proof. vm_compute. repeat split; repeat constructor. Qed.
+
+(* the align_corners flag asked of FlowField.read / Image.read / Grid.from_reader (Grid.from_file) is the flag of the grid
+   that comes back (traced for both values): reading back a flow from an align_corners=False grid keeps the meaning of
+   Axes.from_grid *)
+Definition align_corners_passthrough_ok : bool :=
+  forallb (fun e => match e with (_, asked, Some got) => Bool.eqb asked got | (_, _, None) => false end) gen_align_corners_passthrough
+  && Nat.eqb (length gen_align_corners_passthrough) 6.
+Lemma align_corners_passthrough_holds : align_corners_passthrough_ok = true.
+Proof. vm_compute. reflexivity. Qed.
